@@ -9,7 +9,7 @@
 (* compute_bounds, find_trivial_move, find_best_compaction, expand) and    *)
 (* tree/recover.rs; the *properties* are stated against the history `all`. *)
 (***************************************************************************)
-EXTENDS Cursor, FiniteSetsExt
+EXTENDS Cursor, FiniteSetsExt, TLCExt
 
 MinOf(S) == CHOOSE x \in S : \A y \in S : x <= y
 MaxOf(S) == CHOOSE x \in S : \A y \in S : x >= y
@@ -112,6 +112,37 @@ RunIdeal(s, p, calls, i) == IF i > Len(calls) THEN <<>> ELSE LET p1 == AApply(s,
 RECURSIVE WalkFwd(_, _), WalkBwd(_, _)
 WalkFwd(c, n) == LET c1 == Next(c) IN IF n = 0 \/ Key(c1).k = 0 THEN <<>> ELSE <<Key(c1)>> \o WalkFwd(c1, n - 1)
 WalkBwd(c, n) == LET c1 == Prev(c) IN IF n = 0 \/ Key(c1).k = 0 THEN <<>> ELSE <<Key(c1)>> \o WalkBwd(c1, n - 1)
+
+(* -------------------------------- recovery ------------------------------ *)
+\* tree/recover.rs: edge newer -> older between key-overlapping files; files with interleaved
+\* timestamp ranges are mutually connected; SCC = mutual reachability; level = longest path from a
+\* root of the SCC DAG; clamp to NL levels; L0 by smallest timestamp, others by (first key, min ts).
+\* Written with tabulated functions (metadata, successor sets, closure by repeated squaring,
+\* levels by relaxation to a fixed point) so that TLC evaluates it in polynomial time.
+RECURSIVE RelaxLevels(_, _, _, _, _)
+RelaxLevels(L, ids, Scc, Pred, fuel) ==
+  LET L2 == TLCEval([a \in ids |-> MaxOf({0} \cup {L[b] + 1 : b \in Pred[a]})])
+  IN IF fuel = 0 \/ L2 = L THEN L ELSE RelaxLevels(L2, ids, Scc, Pred, fuel - 1)
+
+RecoverLevels(ids, fs, NL) ==
+  LET M == TLCEval([a \in ids |-> [fk |-> FirstKey(fs[a]), lk |-> LastKey(fs[a]), mn |-> MinTs(fs[a]), mx |-> MaxTs(fs[a])]])
+      Succ == TLCEval([a \in ids |-> {b \in ids : b # a /\ M[a].fk <= M[b].lk /\ M[b].fk <= M[a].lk /\ ~(M[a].mx < M[b].mn)}])
+      Sq(R) == TLCEval([a \in ids |-> R[a] \cup UNION {R[b] : b \in R[a]}])
+      R1 == Sq(Succ)  R2 == Sq(R1)  R3 == Sq(R2)  R4 == Sq(R3)  R5 == Sq(R4)
+      Reach == Sq(R5)                                              \* paths of length <= 64
+      Scc == TLCEval([a \in ids |-> {a} \cup {b \in Reach[a] : a \in Reach[b]}])
+      \* predecessors of a's component from outside the component
+      Pred == TLCEval([a \in ids |-> {b \in ids \ Scc[a] : \E c \in Scc[a] : c \in Succ[b]}])
+      lvl == TLCEval(RelaxLevels([a \in ids |-> 0], ids, Scc, Pred, Cardinality(ids) + 1))
+      mx == IF ids = {} THEN 0 ELSE MaxOf({lvl[a] : a \in ids})
+      delta == IF mx >= NL THEN mx - NL + 1 ELSE 0
+      adj(a) == IF lvl[a] < delta THEN 0 ELSE lvl[a] - delta
+  IN [l \in 1..NL |-> SetToSeq({a \in ids : adj(a) = l - 1})]     \* order inside a level: see RecoverOrdered
+
+\* files of one level (>= 1) cover disjoint key ranges: what Level::lower_bound/upper_bound rely on
+LevelsDisjoint(levels, files) ==
+  \A l \in 2..Len(levels) : \A i, j \in 1..Len(levels[l]) :
+     i < j => LastKey(files[levels[l][i]]) < FirstKey(files[levels[l][j]])
 
 (* ------------------------------- properties ----------------------------- *)
 Unb == [kind |-> "U", k |-> 0]
